@@ -1549,7 +1549,10 @@ drainSets:
 			}
 		}
 		if !scanJ[key] && !reobsJ[key] {
-			sc.monf("safety:"+why, "step %d (%s): forwarded body %d of tx %d block %d level %d without justification (%s); head served %d; lookups %+v",
+			if n := sc.stats[fmt.Sprintf("fwdbody_%d", m.Body)]; why == "already-resolved" && n > 1 {
+				why += fmt.Sprintf(": this message has now come out of the watcher %d times", n)
+			}
+			sc.monf("safety:"+strings.SplitN(why, ":", 2)[0], "step %d (%s): forwarded body %d of tx %d block %d level %d without justification (%s); head served %d; lookups %+v",
 				si, st.Op, m.Body, l.Tx, keyBlock(inst), l.CL, why, headNow, lookups)
 		}
 	}
